@@ -89,6 +89,21 @@ func chainDecorators() []func() map[string]*cat.Fn {
 			},
 		)
 	}
+	for _, s := range []string{"r", "a", "b"} {
+		s := s
+		out = append(out,
+			// a decorator of T0 that consumes T1, whose constructor depends on T0
+			func() map[string]*cat.Fn {
+				return map[string]*cat.Fn{"d1": dec(s, []cat.Param{par("T0", "req", 0), par("T1", "req", 0)}, one("T0"))}
+			},
+			// two decorators in one scope: the second conflicts with the first on its second key
+			func() map[string]*cat.Fn {
+				return map[string]*cat.Fn{
+					"d1": dec(s, []cat.Param{par("T1", "req", 0)}, one("T1")),
+					"d2": dec(s, []cat.Param{par("T0", "req", 0), par("T1", "req", 0)}, one("T0"), one("T1")),
+				}
+			})
+	}
 	// two decorators of the same key at two levels
 	out = append(out, func() map[string]*cat.Fn {
 		return map[string]*cat.Fn{
